@@ -12,8 +12,8 @@ META = dict(
                 "new bytes, and the trickle depth/repeat rule re-stated from the package documentation (TrickleShapeOK); an ideal "
                 "append (continue the fill order) is model-checked to satisfy it and to equal the fresh layout. TLC enumerates "
                 "(base chunks n, appended chunks m, width, leaf kind, short last chunks); the real trickle.Append is run on each "
-                "pair and every resulting DAG, decoded node by node, is validated by TLC against AppendOK (thorough: all n,m<=60, "
-                "w 2..4; quick: exhaustive core + seed-dependent sample). Random bases and chains of appends with fixed-size and "
+                "pair and every resulting DAG, decoded node by node, is validated by TLC against AppendOK (thorough: all n,m<=60 "
+                "for w=2, n,m<=32 for w=3,4 + 1/5 sample of the rest; quick: exhaustive core + seed-dependent sample). Random bases and chains of appends with fixed-size and "
                 "rabin chunkers, widths 2..16, are validated the same way. The code's own VerifyTrickleDagStructure must agree "
                 "with the spec's rule on every DAG."),
     level_note=("Trusted: mock DAGService, protobuf decoding, the projection c07Project. The appended tree is not required to equal "
@@ -28,16 +28,16 @@ def run(ctx):
     ctx.assumptions += ["mock DAGService (merkledag over MapDatastore) is a correct block map",
                         "protobuf / UnixFS decoding of a stored node is faithful"]
     ctx.cov["rule"] = ("G: one case per (width, leaf kind, n base chunks, m appended chunks, short last chunk of base / of the "
-                       "appended data), enumerated by TLC; thorough = the full product n<=60, m<=60, w in 2..4; quick = the full "
-                       "product n<=16, m<=12, w<=3 plus a 1/97 seed-dependent sample of the rest. Each case = one real Append whose "
+                       "appended data), enumerated by TLC; thorough = all n,m<=60 for w=2, all n,m<=32 for w=3,4, 1/5 of the rest; quick = the full "
+                       "product n<=12, m<=12, w<=3 plus a 1/151 seed-dependent sample of the rest. Each case = one real Append whose "
                        "projected tree is decided by TLC (AppendOK). T: random base + chain of 1..4 appends. "
                        "non-trivial = the base already has sub-trickles (n > w) so the append path descends")
     q = ctx.quick
     ctx.tlc_mc(SPEC, "MCUnixFSFile.tla", "MCUnixFSFile.cfg" if q else "MCUnixFSFileBig.cfg", timeout=1500,
                coverage=not q, workers=4 if q else 12)
     cfg = c07.write_gen_cfg(ctx, "gen_append.cfg", Kind='"append"', GN=60, GM=60, GWidths=c07.tset([2, 3, 4]),
-                            PartSel=ctx.seed % 5, SmallN=16 if q else 60, SmallM=12 if q else 60, SmallW=3 if q else 4,
-                            SampleMod=97 if q else 1, Salt=ctx.seed)
+                            PartSel=ctx.seed % 7, SmallN=12 if q else 60, SmallM=12 if q else 60, SmallW=3 if q else 2,
+                            Small2N=0 if q else 32, Small2M=0 if q else 32, SampleMod=151 if q else 5, Salt=ctx.seed)
     cases = ctx.tlc_gen(SPEC, "GenUnixFSFile.tla", cfg, timeout=1800, workers=2 if q else 8)
     if not cases:
         return
